@@ -108,15 +108,6 @@ func (s *Heatmap) WriteHeader(colNames ...string) (colCount int) {
 	const delimCount = 2
 
 	for i := 0; i < colCount; {
-		if i != 0 {
-			count := mini(colCount-i, delimCount)
-			writeRepeat(&sb, delim, count)
-			i += count
-			if i >= colCount {
-				break
-			}
-		}
-
 		name := colNames[i]
 		nameLen := color.StrLen(name)
 
@@ -135,6 +126,12 @@ func (s *Heatmap) WriteHeader(colNames ...string) (colCount int) {
 
 		sb.WriteString(underlineHeaderChar(name, 0))
 		i += nameLen
+
+		// Delimiters up to the next name. Always advances, so an empty name can't stall the loop
+		if count := mini(colCount-i, delimCount); count > 0 {
+			writeRepeat(&sb, delim, count)
+			i += count
+		}
 	}
 
 	if colCount < len(colNames) {
